@@ -1,13 +1,15 @@
+import PT.Lemmas.Canon
 import PT.Lemmas.Reach
 import PT.SetOps
 /-!
 # C15 — Trie stays well-formed; insert/remove shape depends only on the key set
 
-Proved here: (i) well-formedness in every reachable state and the depth bound; (iv) shape invariance
-of `remove_keep_tree` and of value-only operations.  The canonical-shape clauses (a trie modified
-only by insert / remove / retain / clear has the shape of a fresh build; value-less non-root nodes
-have two children) are checked by correspondence (`shape`, `shape_fresh`) and by the shape oracle,
-not yet by a theorem.
+Proved here: (i) well-formedness in every reachable state and the depth bound; (ii) for histories
+over the canonical sub-alphabet every value-less non-root node has two children and the shape is a
+function of the key set (= the shape of a fresh build in any insertion order; `remove` reverts
+`insert`); (iii) shape invariance of `remove_keep_tree` and of value-only operations.
+(`retain` is a fold of `remove` in the model; that the real `_retain` recursion is that fold is
+compared by correspondence — `shape`, `shape_fresh` lines — not proved.)
 -/
 namespace PT.C15
 open Tree Pfx PMap
@@ -80,5 +82,99 @@ theorem modifySlot_shape (t : Tree w V) (s : Nat) (f : V → V) : skel (t.modify
   | node s' p v l r ihl ihr =>
     unfold modifySlot
     split <;> simp [skel, ihl, ihr]
+
+
+/-! ### canonical shape (clauses ii and iii) -/
+
+/-- every value-less non-root node has two children, after any history over the canonical
+sub-alphabet (`Op.Canonical`: `insert`, the Entry API, `collect`, value writes, `remove`, `retain`
+— also one cut short by a panicking predicate — and `clear`; not `remove_keep_tree`,
+`remove_children`) -/
+theorem canonical_after_history (ops : List (Op w V)) (hops : ∀ op ∈ ops, op.Canonical) :
+    Tree.Canon true (run ops (PMap.empty : PMap w V)).root := run_canonical ops hops
+
+/-- unfolding of `Canon` at a non-root node, in the property's words -/
+theorem canon_node {s : Nat} {p : Pfx w} {v : Option V} {l r : Tree w V}
+    (h : Tree.Canon false (.node s p v l r)) :
+    (v = none → l ≠ .nil ∧ r ≠ .nil) ∧ Tree.Canon false l ∧ Tree.Canon false r := by
+  refine ⟨fun hv => ?_, h.2.1, h.2.2⟩
+  rcases h.1 with h1 | h1 | h1
+  · cases h1
+  · rw [hv] at h1; cases h1
+  · constructor
+    · intro e; rw [e] at h1; simp [Tree.isNil] at h1
+    · intro e; rw [e] at h1; simp [Tree.isNil] at h1
+
+/-- **the shape depends only on the key set**: two histories over the canonical sub-alphabet (over
+any value types, in any order, with any intermediate states) that end with the same keys end with
+the same observable shape (`Tree.shape`: key in network form and value presence of every node, and
+the left/right structure) -/
+theorem shape_depends_only_on_keys {V' : Type} (ops1 : List (Op w V)) (ops2 : List (Op w V'))
+    (h1 : ∀ op ∈ ops1, op.Canonical) (h2 : ∀ op ∈ ops2, op.Canonical)
+    (hk : (run ops1 PMap.empty).entries.map (·.1.net) = (run ops2 PMap.empty).entries.map (·.1.net)) :
+    Tree.shape (run ops1 (PMap.empty : PMap w V)).root = Tree.shape (run ops2 (PMap.empty : PMap w V')).root :=
+  shape_eq_of_keys (run_inv ops1).tree (run_inv ops2).tree (run_canonical ops1 h1) (run_canonical ops2 h2) hk
+
+/-- … in particular it is the shape of a map freshly built (`collect` = repeated `insert`) from the
+surviving entries, inserted in *any* order (`xs`: any list with exactly the surviving entries as
+members, repetitions allowed) -/
+theorem shape_eq_fresh_build (ops : List (Op w V)) (hops : ∀ op ∈ ops, op.Canonical)
+    (xs : List (Pfx w × V)) (hx : ∀ e, e ∈ xs ↔ e ∈ (run ops (PMap.empty : PMap w V)).entries) :
+    Tree.shape (run ops (PMap.empty : PMap w V)).root = Tree.shape (PMap.collect xs).root := by
+  refine shape_eq_of_keys (run_inv ops).tree (collect_inv xs).tree (run_canonical ops hops)
+    (collect_canonical xs) ?_
+  rw [collect_entries_of_mem (run_inv ops).tree xs hx]
+
+/-- `remove` exactly reverts `insert`: inserting an absent key and removing it again restores the shape -/
+theorem remove_reverts_insert {m : PMap w V} (h : m.TreeWF) (c : m.Canonical) (q : Pfx w) (x : V)
+    (habs : ∀ e ∈ m.entries, e.1.net ≠ q.net) :
+    Tree.shape ((m.insert q x).1.remove q).1.root = Tree.shape m.root ∧
+    ((m.insert q x).1.remove q).1.entries = m.entries := by
+  have hi := insert_treeWF h q x
+  have hr := remove_treeWF hi q
+  have he : ((m.insert q x).1.remove q).1.entries = m.entries := by
+    apply Spec.eq_of_sorted (entries_sorted' hr) (entries_sorted' h)
+    · intro e
+      have h1 : e ∈ ((m.insert q x).1.remove q).1.entries ↔ e ∈ (m.insert q x).1.entries ∧ e.1.net ≠ q.net :=
+        remove_mem hi.wf q false e
+      have h2 : e ∈ (m.insert q x).1.entries ↔ e = (q, x) ∨ (e ∈ m.entries ∧ e.1.net ≠ q.net) :=
+        insert_mem h.wf q x _ _ (h.rootCovers q) h.root_ne_nil e
+      rw [h1, h2]
+      constructor
+      · rintro ⟨h3 | h3, h4⟩
+        · subst h3; exact absurd rfl h4
+        · exact h3.1
+      · intro h3; exact ⟨.inr ⟨h3, habs e h3⟩, habs e h3⟩
+  exact ⟨shape_eq_of_keys hr h (remove_canonical (insert_canonical c q x) q) c (by rw [he]), he⟩
+
+/-- non-vacuity: a canonical history that builds a branching node and dissolves it again -/
+example : ∀ op ∈ ([.insert ⟨0x00#8, 2, by omega⟩ 1, .insert ⟨0x40#8, 2, by omega⟩ 2, .remove ⟨0x40#8, 2, by omega⟩,
+    .retain (fun _ v => v != 1) (some 1)] : List (Op 8 Nat)), op.Canonical := by
+  intro op h
+  simp only [List.mem_cons, List.mem_nil_iff, or_false] at h
+  rcases h with h | h | h | h <;> subst h <;> trivial
+
+
+/-- `TrieViewMut::set` / `TrieViewMut::remove` (value insertion / removal through a mutable view)
+never change the shape: no node is created, unlinked or re-labelled -/
+theorem setAt_shape (t : Tree w V) (path : List Bool) (nv : Option V) : skel (t.setAt path nv) = skel t := by
+  induction path generalizing t with
+  | nil => rw [setAt_nil]; cases t <;> rfl
+  | cons c cs ih =>
+    cases t with
+    | nil => rw [setAt_nil_tree]
+    | node s p v l r =>
+      rw [setAt_cons]; unfold setChild
+      cases c <;> simp [skel, ih, child]
+
+theorem viewSet_shape (m : PMap w V) (v : View w) (x : V) : skel (m.viewSet v x).1.root = skel m.root := by
+  rw [viewSet_root]; cases v.virt
+  · exact setAt_shape _ _ _
+  · rfl
+
+theorem viewRemove_shape (m : PMap w V) (v : View w) : skel (m.viewRemove v).1.root = skel m.root := by
+  rw [viewRemove_root]; cases v.virt
+  · exact setAt_shape _ _ _
+  · rfl
 
 end PT.C15
